@@ -59,9 +59,9 @@ type fakeProc struct {
 
 func newFake(b gen.ProcessBehavior) *fakeProc {
 	return &fakeProc{
-		beh:  b,
-		mbox: gen.ProcessMailbox{Main: lib.NewQueueMPSC(), System: lib.NewQueueMPSC(), Urgent: lib.NewQueueMPSC(), Log: lib.NewQueueMPSC()},
-		pid:  gen.PID{Node: "n@h", ID: 1000, Creation: 1},
+		beh:    b,
+		mbox:   gen.ProcessMailbox{Main: lib.NewQueueMPSC(), System: lib.NewQueueMPSC(), Urgent: lib.NewQueueMPSC(), Log: lib.NewQueueMPSC()},
+		pid:    gen.PID{Node: "n@h", ID: 1000, Creation: 1},
 		nextID: 1000, live: map[gen.PID]*fakeChild{}, names: map[gen.Atom]gen.PID{}, gens: map[gen.Atom]int{}, exitReq: map[gen.PID]error{},
 		failSpawn: map[gen.Atom]bool{},
 	}
